@@ -19,7 +19,7 @@
 //!  (5) no panic (caught by the runner).
 //! JSON-born trees get (1) and (5).
 use crate::core::{Ctx, Fail, Prop, Tier};
-use crate::props::viewgen::{self, gen_cfg, render_checked, RenderOutcome, Rendered, RunCfg};
+use crate::props::viewgen::{self, gen_cfg, render_checked, draw_view_checked, RenderOutcome, Rendered, RunCfg};
 use crate::rng::Rng;
 use crate::{ensure, fail};
 use serde::de::DeserializeSeed;
@@ -1005,6 +1005,20 @@ fn for_each_node<'a>(node: &'a Node, f: &mut dyn FnMut(&'a Node)) {
     }
 }
 
+/// Cell equality where images count by content: a `Dynamic` view builds its images anew on every
+/// call, and the library compares images by buffer identity
+fn same_cell(a: &Cell, b: &Cell) -> bool {
+    use surf_n_term::render::CellKind;
+    match (a.kind(), b.kind()) {
+        (CellKind::Image(x), CellKind::Image(y)) => {
+            a.face() == b.face() && x.size() == y.size() && x.iter().zip(y.iter()).all(|(p, q)| p == q)
+        }
+        // glyphs compare by identity as well: fall back to what they print as (scene, size, fallback)
+        (CellKind::Glyph(_), CellKind::Glyph(_)) => a == b || format!("{a:?}") == format!("{b:?}"),
+        _ => a == b,
+    }
+}
+
 fn check_tree(root: &Node, cfg: &RunCfg, ctx: &mut Ctx) -> Result<(), Fail> {
     if !cfg.valid() {
         ctx.nondeciding = true;
@@ -1061,6 +1075,55 @@ fn check_tree(root: &Node, cfg: &RunCfg, ctx: &mut Ctx) -> Result<(), Fail> {
             return Ok(());
         }
     };
+
+    // (1b) the convenience entry point: draw_view == layout under loose(surface size) + render
+    // (an empty surface view reports 0x0 whatever its other extent: nothing to compare there)
+    if cfg.surf.0 > 0 && cfg.surf.1 > 0 {
+        let log_len_before_draw_view = env.log.lock().unwrap().len();
+        let loose = RunCfg { min: (0, 0), max: cfg.surf, ..*cfg };
+        let reuse = cfg.surf.0.wrapping_add(cfg.surf.1).wrapping_add(cfg.max.0) % 2 == 1;
+        let reference = render_checked(&view, &loose)?;
+        let drawn = draw_view_checked(&view, &loose, reuse)?;
+        match (reference, drawn) {
+            (RenderOutcome::Done(want), RenderOutcome::Done(got)) => {
+                ctx.feat("draw_view.compared");
+                ctx.feat_if(reuse, "draw_view.with-used-layout-store");
+                for row in 0..want.surf.height {
+                    for col in 0..want.surf.width {
+                        ensure!(
+                            same_cell(want.cell(row, col), got.cell(row, col)),
+                            "draw_view:differs-from-layout+render",
+                            "cell ({row},{col}) of the {}x{} surface is {:?} after draw_view but {:?} after layout under loose({}x{}) + render",
+                            want.surf.height,
+                            want.surf.width,
+                            got.cell(row, col),
+                            want.cell(row, col),
+                            want.surf.height,
+                            want.surf.width
+                        );
+                    }
+                }
+                ensure!(
+                    want.layout().size() == got.layout().size() && want.layout().position() == got.layout().position(),
+                    "draw_view:layout-differs",
+                    "draw_view reports root layout {:?}@{:?}, layout under the loose constraint gives {:?}@{:?}",
+                    got.layout().size(),
+                    got.layout().position(),
+                    want.layout().size(),
+                    want.layout().position()
+                );
+            }
+            (RenderOutcome::ViewError(_), RenderOutcome::ViewError(_)) => ctx.feat("draw_view.both-error"),
+            (a, b) => fail!(
+                "draw_view:outcome-differs",
+                "layout+render {} while draw_view {}",
+                if matches!(a, RenderOutcome::Done(_)) { "succeeds" } else { "returns an error" },
+                if matches!(b, RenderOutcome::Done(_)) { "succeeds" } else { "returns an error" }
+            ),
+        }
+        // the probes logged their constraints a second and third time
+        env.log.lock().unwrap().truncate(log_len_before_draw_view);
+    }
 
     // (2) reported sizes
     let log = env.log.lock().unwrap().clone();
